@@ -43,19 +43,27 @@ mod absolute_to_relative_time {
     pub use serde::{Deserialize, Deserializer, Serialize, Serializer};
     pub use std::time::{Duration, Instant};
 
+    #[cfg_attr(feature = "verif-hooks", allow(unreachable_code))]
     pub fn serialize<S>(deadline: &Instant, serializer: S) -> Result<S::Ok, S::Error>
     where
         S: Serializer,
     {
+        #[cfg(feature = "verif-hooks")]
+        return deadline
+            .duration_since(crate::verif_hooks::now())
+            .serialize(serializer);
         let deadline = deadline.duration_since(Instant::now());
         deadline.serialize(serializer)
     }
 
+    #[cfg_attr(feature = "verif-hooks", allow(unreachable_code))]
     pub fn deserialize<'de, D>(deserializer: D) -> Result<Instant, D::Error>
     where
         D: Deserializer<'de>,
     {
         let deadline = Duration::deserialize(deserializer)?;
+        #[cfg(feature = "verif-hooks")]
+        return Ok(crate::verif_hooks::now() + deadline);
         Ok(Instant::now() + deadline)
     }
 
@@ -86,7 +94,10 @@ mod absolute_to_relative_time {
 
 assert_impl_all!(Context: Send, Sync);
 
+#[cfg_attr(feature = "verif-hooks", allow(unreachable_code))]
 fn ten_seconds_from_now() -> Instant {
+    #[cfg(feature = "verif-hooks")]
+    return crate::verif_hooks::now() + Duration::from_secs(10);
     Instant::now() + Duration::from_secs(10)
 }
 
